@@ -11,7 +11,8 @@ func init() {
 		Rule: "a case = one configuration file (TOML text: every optional key independently unset / valid / zero / malformed, the shipped " +
 			"app_config.toml verbatim and with single-key perturbations, sparse and broken files) loaded by the real ParseConfig, plus a plan of " +
 			"4 (quick) / 8 (thorough) reload steps mixing valid, malformed and unreadable configuration and subnet files; evaluations = files put " +
-			"through the start-up sequence (+ liveness configurations and connManager traffic scripts of the two side stages); " +
+			"through the start-up sequence (+ liveness configurations and connManager traffic scripts of the two side stages, + the start-up " +
+			"configurations of the concurrent housekeeping stages, whose real work is counted separately: reports, new statistics-map keys, overlapping ingests); " +
 			"distinct_nontrivial = distinct (key-state vector, reload plan) pairs of ACCEPTED configurations that ran the full housekeeping " +
 			"round and at least one reload step",
 		Assumptions: []string{
@@ -23,6 +24,8 @@ func init() {
 		Stages: []Stage{
 			{Name: "lib", Pkg: "./pkg/station/lib", Run: "^TestVerifC19Config$", Drivers: []string{"lib"}, TimeoutQ: 10 * time.Minute, TimeoutT: 40 * time.Minute},
 			{Name: "liveness", Pkg: "./pkg/station/liveness", Run: "^TestVerifC19LivenessStats$", Drivers: []string{"liveness"}, TimeoutQ: 10 * time.Minute, TimeoutT: 20 * time.Minute},
+			{Name: "liveness-concurrent", Pkg: "./pkg/station/liveness", Run: "^TestVerifC19LivenessConcurrent$", Drivers: []string{"liveness"}, Race: true,
+				RaceFilter: c19StatsRace, TimeoutQ: 10 * time.Minute, TimeoutT: 20 * time.Minute},
 			// own child processes: the failure these look for (concurrent map iteration and map write) is process-fatal
 			{Name: "housekeeping-concurrent", Pkg: "./pkg/station/lib", Run: "^TestVerifC19Concurrent$", Drivers: []string{"lib"}, TimeoutQ: 12 * time.Minute, TimeoutT: 40 * time.Minute},
 			{Name: "housekeeping-concurrent-race", Pkg: "./pkg/station/lib", Run: "^TestVerifC19Concurrent$", Drivers: []string{"lib"}, Race: true, Env: []string{"VERIF_C19_RACE=1"},
